@@ -127,6 +127,17 @@ def main():
                     traces.append(one_trace(tid, n, GraphCooperativeGame(m), "exact", "int_graph"))
                 else:
                     traces.append(one_trace(tid, n, table_of(n, [float(x) for x in v]), "exact", "exact"))
+            if n == 2:
+                # games at the edge of the library's own tolerance: accepted as superadditive (relative 1e-9) although their surplus is
+                # slightly NEGATIVE -- large singletons, a deficit of one grid unit (seed C15-g: a guard that assumes the surplus of an
+                # accepted game is never negative).  Kept inside the exact domain: values * 2^11 below 2^30.
+                from incomplete_cooperative.game_properties import is_superadditive
+                for j in range(3):
+                    tid += 1
+                    s1, s2 = float(2 ** 18 - rng.randint(1, 3)), float(2 ** 18 - rng.randint(1, 3))
+                    g = table_of(n, [0.0, s1, s2, s1 + s2 - 2.0 ** -11])
+                    if is_superadditive(g):
+                        traces.append(one_trace(tid, n, g, "exact", "tolerance_edge"))
             path = f"{a.out}_norm_n{n}.json"
             D.dump(path, {"traces": traces})
             files.append({"n": n, "path": path, "traces": len(traces), "events": len(traces),
